@@ -250,4 +250,24 @@ PROPS["C12"] = {
                   "are runtime behaviour the model cannot exhibit; they are covered only by the thorough tier's concurrent run.",
 }
 
+PROPS["C13"] = {
+    "drivers": [MAIN],
+    "rule": "six scenarios on the real proxy over persistence.Manager and an in-memory store client with a fault plan (login callback, "
+            "authenticated request, request with a due refresh, refresh refused by the provider, sign-out, readiness probe) x every "
+            "position k of the scenario's store-operation sequence (and two positions beyond it) x fault kind {error before effect, error "
+            "after effect (lost reply), missing key, corrupted value at 4 offsets, truncation to 0/1/11/12/13/28/29/60 bytes}, singly "
+            "(quick) and in pairs (thorough); outcome class, operation sequence, cookie set/cleared compared with the model; non-trivial "
+            "= every faulted run",
+    "assumptions": ["corrupted / truncated values are rejected by AES-GCM authentication or msgpack decoding (modelled: every fault on a "
+                    "read makes the load fail); lock semantics of the in-memory client, not redislock"],
+    "trusted_base": ["the fault-injecting store client in the driver"],
+    "level_text": "for EVERY fault plan (a function from operation index to fault kind): c13_auth (upstream only if both reads were unfaulted "
+                  "and the lock obtained without error), c13_faulted_read_unauth / _lock_ / _reload_, c13_cookie_callback and "
+                  "c13_cookie_refresh (a session cookie only after a successful write), c13_signout, c13_ready, and the exact "
+                  "characterisation of the strict clause c13_strict_characterisation with c13_strict_refuted_save (finding F8) are proved on "
+                  "the Gallina model of the flows; the model is compared with the real proxy at every fault position on every run.",
+    "level_note": "the strict clause (ANY faulted operation => unauthenticated) is false of the faithful model and of the code for the write "
+                  "after a successful refresh and for the lock release: known findings in KNOWN_FINDINGS.txt (deliberate upstream behaviour).",
+}
+
 NOT_APPLICABLE = {}
